@@ -57,6 +57,32 @@ def run(ctx):
                 fails.append({"case": case, "what": f"rule {rn}: content rule not implemented: {content.get('content_rules')}"})
         except Exception as ex:
             fails.append({"case": case, "what": f"rule {rn} is malformed: {type(ex).__name__}: {ex}"})
+    # 2b. ... "so whatever single-node validation allows, whole-tree validation is able to accept": behaviourally - no known element
+    # other than the opaque `metadata` lets single-node validation pass a child whose name is not a known element
+    tg2 = gen.TreeGen(ri); rng = ctx.rng
+    for e in sorted(mappings):
+        if e == "metadata" or mappings[e] not in rules:
+            continue
+        evals += 1
+        try:
+            wt = tg2.min_tree(e, rng) if tg2.productive(e) else impl.T(e)
+        except Exception:
+            continue
+        for pos in (0, len(wt[8])):
+            t2 = [*wt[:8], list(wt[8])]
+            t2[8].insert(pos, impl.T("zzNoSuchElement"))
+            impl.reset()
+            root2 = impl.build(t2)
+            errs2 = []
+            try:
+                validate.node(root2, errs2)
+            except Exception as ex:
+                errs2 = [("raised", type(ex).__name__)]
+            names_in_errs = [x for x in errs2 if getattr(x[0], "name", "") in ("CHILD_NOT_ALLOWED", "MAX_OCCURRENCE_EXCEEDED", "MIN_OCCURRENCE_UNMET", "MAX_CHOICE_EXCEEDED", "MIN_CHOICE_UNMET")]
+            if not errs2:
+                fails.append({"case": {"element": e, "child": "zzNoSuchElement", "position": pos},
+                              "what": f"single-node validation of {e} accepts a child 'zzNoSuchElement' that is not a known element: whole-tree validation can never accept what it allows"})
+                break
     # 3. closure: every child name a reachable rule permits is a known element
     for rn in sorted(set(mappings.values())):
         if rn not in rules:
